@@ -1,6 +1,7 @@
 import AmVerif.Proofs.PatchDiff
 import AmVerif.Proofs.PatchLocal
 import AmVerif.Proofs.PatchObj
+import AmVerif.Proofs.PatchSeq
 /-
   C08 — "diff between any two heads transforms one state into the other: For any object and any two
   head sets H1 and H2 of a document, in either direction, applying the patches from diff(H1, H2) to
@@ -113,6 +114,37 @@ example :
       [.increment (.key [97]) 2, .conflict (.key [97]), .putMap [98] (.scalar (.str [120])) false] ∧
     entryBefore (diffItemsOf before after after .root [97]) = some (false, .scalar (.counter 1)) ∧
     entryAfter (diffItemsOf before after after .root [97]) = some (true, .scalar (.counter 3)) := by
+  decide
+
+/-! ### a whole list object: running index -/
+
+/-- C08 for a list OBJECT (all elements), non-recursive level, lists without marks: `seqDiff_sound`.
+    `elems` are the elements of the list in document order, each with its operations visible at H1
+    or H2.  The events `ListDiff` emits for them — in document order, each addressed to the running
+    index, which advances past every element visible at H2 — applied one after the other the way
+    `hydrate::List::apply` applies `Insert` / `PutSeq` / `Increment` / `Conflict` / `DeleteSeq{1}`
+    (on the shallow view: conflict flag and value), turn the list of the elements visible at H1 into
+    the list of the elements visible at H2: values, flags, counters, insertions and deletions at the
+    right positions.  (`PatchBuilder` merges adjacent `Insert`s / `DeleteSeq`s into one patch; the
+    applier's loops over such a patch are the one-by-one application used here.) -/
+theorem C08_seqDiff_sound (elems : List (List DItem)) (hne : ∀ items ∈ elems, items ≠ [])
+    (hwf : ∀ items ∈ elems, ∀ it ∈ items, it.wf = true) :
+    applySeqEvents (elems.filterMap entryBefore) (listDiffEvents 0 elems)
+      = .ok (elems.filterMap entryAfter) :=
+  seqDiff_sound elems hne hwf
+
+/-- non-vacuity: [x, y] at H1; at H2 a new element `n` in front, `x` deleted, `y` overwritten
+    concurrently by 1 and 2: Insert at 0, DeleteSeq at 1, PutSeq at 1 → [n, 2 (conflicted)]. -/
+example :
+    let elems : List (List DItem) :=
+      [[⟨.add, ⟨5, [1]⟩, .scalar (.str [110]), 0, false⟩],
+       [⟨.del, ⟨2, [1]⟩, .scalar (.str [120]), 0, true⟩],
+       [⟨.del, ⟨3, [1]⟩, .scalar (.str [121]), 0, true⟩, ⟨.add, ⟨6, [1]⟩, .scalar (.int 1), 0, false⟩,
+        ⟨.add, ⟨6, [2]⟩, .scalar (.int 2), 0, false⟩]]
+    listDiffEvents 0 elems =
+      [(0, .insert (.scalar (.str [110])) false false), (1, .del), (1, .put (.scalar (.int 2)) true false)] ∧
+    elems.filterMap entryBefore = [(false, .scalar (.str [120])), (false, .scalar (.str [121]))] ∧
+    elems.filterMap entryAfter = [(false, .scalar (.str [110])), (true, .scalar (.int 2))] := by
   decide
 
 /-! ### "text content": rich text -/
